@@ -363,3 +363,140 @@ Proof.
         by (rewrite <- N.pow_add_r; f_equal; lia).
       lia.
 Qed.
+
+(** * the loop over the runs *)
+
+Definition run_bit (r : run) : Prop :=
+  match r with RunRLE _ v => v < 2 | RunBP _ => True end.
+
+Lemma go_bits_runs rs : Forall (wf_run 1) rs -> Forall go_run_ok rs -> Forall run_bit rs ->
+  forall fuel dst bits vals, (length (serialize 1 rs) <= fuel)%nat -> inv dst bits vals ->
+  exists packed,
+    go_decode_bits fuel (serialize 1 rs) dst bits = GOk packed /\
+    inv packed (bits + N.of_nat (length (concat (map expand rs)))) (vals ++ concat (map expand rs)).
+Proof.
+  induction 1 as [|r rs Hr Hrs IH]; intros Hok Hbit fuel dst bits vals Hfuel Hinv.
+  - exists dst. split; [destruct fuel; reflexivity|].
+    cbn [map concat length N.of_nat]. now rewrite N.add_0_r, app_nil_r.
+  - inversion Hok as [|? ? Hr_ok Hrs_ok]; subst. inversion Hbit as [|? ? Hr_bit Hrs_bit]; subst.
+    unfold serialize in *. cbn [map concat] in *.
+    pose proof (serialize_run_length_pos 1 r) as Hpos.
+    rewrite app_length in Hfuel.
+    destruct fuel as [|f]; [lia|].
+    assert (Hf' : (length (concat (map (serialize_run 1) rs)) <= f)%nat) by lia.
+    assert (Hmc : max_count < 2 ^ 31) by (vm_compute; reflexivity).
+    destruct r as [c v|gs]; cbn [serialize_run expand go_run_ok run_bit wf_run] in *.
+    + (* run-length run of c values v *)
+      change (byte_count 1) with 1%nat. cbn [to_le]. rewrite N.mod_small by lia.
+      rewrite <- app_assoc, go_decode_bits_step by (change (2 ^ 64) with (2 ^ 33 * 2 ^ 31); lia).
+      unfold go_bits_run.
+      rewrite (N.mul_comm 2), N.div_mul by discriminate.
+      destruct (N.eqb_spec (N.of_nat c) 0) as [E|_]; [lia|].
+      destruct (N.ltb_spec max_count (N.of_nat c)) as [E|_]; [lia|].
+      assert (Eo : N.odd (N.of_nat c * 2) = false)
+        by (rewrite N.odd_mul; change (N.odd 2) with false; apply andb_false_r).
+      rewrite Eo. cbn [app tl].
+      assert (Hcpos : 0 < N.of_nat c) by lia.
+      pose proof (rle_step dst bits vals (N.of_nat c) v Hinv Hcpos Hr_bit) as Hstep.
+      cbn zeta in Hstep. rewrite Nat2N.id in Hstep.
+      destruct (IH Hrs_ok Hrs_bit f _ _ _ Hf' Hstep) as (packed & Hgo & Hfin).
+      exists packed. split; [exact Hgo|].
+      rewrite app_length, repeat_length, app_assoc.
+      replace (bits + N.of_nat (c + length (concat (map expand rs))))
+        with (bits + N.of_nat c + N.of_nat (length (concat (map expand rs)))) by lia.
+      exact Hfin.
+    + (* bit-packed run of groups *)
+      destruct Hr as [Hgs Hlen].
+      rewrite <- app_assoc, go_decode_bits_step by (change (2 ^ 64) with (2 ^ 33 * 2 ^ 31); lia).
+      unfold go_bits_run.
+      replace (2 * N.of_nat (length gs) + 1) with (1 + N.of_nat (length gs) * 2) by lia.
+      rewrite N.div_add by discriminate. change (1 / 2) with 0. rewrite N.add_0_l.
+      destruct (N.eqb_spec (N.of_nat (length gs)) 0) as [E|_]; [lia|].
+      destruct (N.ltb_spec max_count (N.of_nat (length gs))) as [E|_]; [lia|].
+      assert (Eo : N.odd (1 + N.of_nat (length gs) * 2) = true)
+        by (rewrite (N.mul_comm _ 2), N.odd_add_mul_2; reflexivity).
+      rewrite Eo.
+      assert (Hbl : length (concat (map (pack_bytes 1) gs)) = length gs).
+      { rewrite (concat_packed_length 1 gs Hgs). change (N.to_nat 1) with 1%nat. lia. }
+      assert (Hf : fits_len (N.of_nat (length gs)) (concat (map (pack_bytes 1) gs) ++ concat (map (serialize_run 1) rs)) = true).
+      { apply fits_len_true. rewrite app_length, Hbl. lia. }
+      rewrite Hf. cbn [negb]. rewrite Nat2N.id.
+      rewrite !(firstn_app_len (length gs)), !(skipn_app_len (length gs)) by exact Hbl.
+      pose proof (bp_step dst bits vals gs Hinv Hgs) as Hstep. cbn zeta in Hstep.
+      destruct (IH Hrs_ok Hrs_bit f _ _ _ Hf' Hstep) as (packed & Hgo & Hfin).
+      exists packed. split; [exact Hgo|].
+      rewrite app_length, (concat_groups_length 1 gs Hgs), app_assoc.
+      replace (bits + N.of_nat (8 * length gs + length (concat (map expand rs))))
+        with (bits + 8 * N.of_nat (length gs) + N.of_nat (length (concat (map expand rs)))) by lia.
+      exact Hfin.
+Qed.
+
+(** Go's decodeBits decodes every conforming stream of booleans: the first
+    bits of the packed bytes it returns are the values of the runs, whatever
+    the lengths of the run-length runs *)
+Theorem go_bits_any_runs rs :
+  Forall (wf_run 1) rs -> Forall go_run_ok rs -> Forall run_bit rs ->
+  let vals := concat (map expand rs) in
+  exists packed,
+    go_decode_bits (length (serialize 1 rs)) (serialize 1 rs) [] 0 = GOk packed /\
+    N.of_nat (length packed) = (N.of_nat (length vals) + 7) / 8 /\
+    firstn (length vals) (bits_of packed) = vals /\
+    dec_hybrid 1 (serialize 1 rs) = Some vals.
+Proof.
+  intros Hwf Hok Hbit vals.
+  destruct (go_bits_runs rs Hwf Hok Hbit _ [] 0 [] (le_n _) inv_nil) as (packed & Hgo & Hfin).
+  exists packed. split; [exact Hgo|].
+  rewrite N.add_0_l in Hfin. cbn [app] in Hfin. fold vals in Hfin.
+  destruct Hfin as (Hw & Hl & Hvl & Hfit & Hnum).
+  split; [exact Hl|]. split.
+  - rewrite bits_of_unpack by exact Hw.
+    rewrite firstn_unpack by lia.
+    rewrite <- unpack_mod, N.mul_1_l, Hnum. now apply unpack_pack.
+  - unfold dec_hybrid. apply dec_runs_serialize; [exact Hwf|lia].
+Qed.
+
+(** with the 4-byte length prefix of an RLE boolean page (DecodeBoolean) *)
+Theorem go_boolean_any_runs rs :
+  Forall (wf_run 1) rs -> Forall go_run_ok rs -> Forall run_bit rs ->
+  rs <> [] -> N.of_nat (length (serialize 1 rs)) < 2 ^ 32 ->
+  let vals := concat (map expand rs) in
+  let page := to_le 4 (N.of_nat (length (serialize 1 rs))) ++ serialize 1 rs in
+  exists packed,
+    go_decode_boolean page = GOk packed /\
+    firstn (length vals) (bits_of packed) = vals /\
+    dec_boolean_n (length vals) page = Some vals.
+Proof.
+  intros Hwf Hok Hbit Hne Hlen vals page.
+  destruct (go_bits_any_runs rs Hwf Hok Hbit) as (packed & Hgo & Hl & Hbits & Hspec).
+  fold vals in Hl, Hbits, Hspec.
+  set (body := serialize 1 rs) in *.
+  assert (Hbpos : (0 < length body)%nat).
+  { subst body. unfold serialize. destruct rs as [|r rs']; [contradiction|].
+    cbn [map concat]. rewrite app_length. pose proof (serialize_run_length_pos 1 r). lia. }
+  exists packed. split; [|split; [exact Hbits|]].
+  - unfold go_decode_boolean, go_decode_boolean_with. subst page.
+    rewrite app_length, to_le_length.
+    destruct (Nat.eqb_spec (4 + length body) 4); [lia|].
+    destruct (Nat.ltb_spec (4 + length body) 4); [lia|].
+    rewrite !(firstn_app_len 4), !(skipn_app_len 4) by apply to_le_length.
+    rewrite of_le_to_le by (change (256 ^ N.of_nat 4) with (2 ^ 32); exact Hlen).
+    assert (Hf : fits_len (N.of_nat (length body)) body = true) by (apply fits_len_true; lia).
+    rewrite Hf. cbn [negb]. rewrite Nat2N.id, firstn_all. exact Hgo.
+  - unfold dec_boolean_n, dec_boolean. subst page.
+    assert (Hvpos : (0 < length vals)%nat).
+    { (* a non-empty list of non-empty runs *)
+      destruct rs as [|r rs']; [contradiction|]. subst vals. cbn [map concat]. rewrite app_length.
+      inversion Hok as [|? ? Hr _]; subst. inversion Hwf as [|? ? Hw _]; subst.
+      destruct r as [c v|gs]; cbn [expand go_run_ok wf_run] in *.
+      - rewrite repeat_length. lia.
+      - destruct Hw as [Hg _]. rewrite (concat_groups_length 1 gs Hg). lia. }
+    destruct (Nat.eqb_spec (length vals) 0); [lia|].
+    rewrite <- (to_le_length 4 (N.of_nat (length body))) at 1.
+    rewrite RleProofs.take_bytes_app.
+    rewrite of_le_to_le by (change (256 ^ N.of_nat 4) with (2 ^ 32); exact Hlen).
+    rewrite Nat2N.id.
+    assert (Hta : Rle.take_bytes (length body) body = Some (body, [])).
+    { pose proof (RleProofs.take_bytes_app body []) as H. now rewrite app_nil_r in H. }
+    rewrite Hta, Hspec.
+    destruct (Nat.leb_spec (length vals) (length vals)); [|lia]. now rewrite firstn_all.
+Qed.
